@@ -76,6 +76,13 @@ def all_faults(b):
             d = streams.fault_section_length(b, sec, delta)
             if d is not None:
                 out.append(('section-length', 's%d%+d' % (sec, delta), d))
+        # the extreme decreases: declared length 0 and 1
+        offs = dict((i, ln) for i, st, ln in streams.section_offsets(b))
+        if sec in offs:
+            for target in (0, 1):
+                d = streams.fault_section_length(b, sec, target - offs[sec])
+                if d is not None and d != b:
+                    out.append(('section-length', 's%d=%d' % (sec, target), d))
     return out
 
 
